@@ -125,3 +125,15 @@ prop("C13",
           "segments over 3 minutes with scte35_N: same oracle; no emsg in audio; InbandEventStream on video only; N outside 1..3 rejected "
           "with 4xx. Non-trivial = a case in which a segment spans a minute start or the announce instant equals a segment boundary.",
      quick=dict(shards=2, timeout=400), thorough=dict(shards=16, timeout=1500), assumptions=COMMON)
+
+prop("C12",
+     rule="rapid draws (asset whose video boundaries are whole ms: bundled incl. the 2.002 s asset and alternating 4/8 s, or generated layouts; "
+          "stpp or wvtt; 1-3 languages; cue duration default/1..5000 ms; region none/0/1; addressing Number/Time/Timeline-Number; start, "
+          "startNumber; live index n in the regimes first / wrap / many wraps / 2026 / 2090). The segment is parsed independently: number, "
+          "tfdt and duration in ms = video segment; cues extracted from the TTML / vttc samples: one cue per UTC second that intersects the "
+          "segment (none for a second whose cue is over before the segment starts), begin = max(second, segment start), end within both "
+          "readings of 'configured duration, clipped', text = UTC second + language + number, ordered, non-overlapping, inside; wvtt samples "
+          "tile the segment with vtte samples in the gaps; region; MPD: one text set per language mirroring the video timeline in ms. "
+          "Non-trivial = segment with >= 2 cues or a boundary off the whole second.",
+     quick=dict(shards=2, timeout=400), thorough=dict(shards=16, timeout=1500),
+     assumptions=COMMON + ["assets whose video segment boundaries are not whole milliseconds are outside the domain (the subtitle track runs on a 1000 Hz timescale)"])
